@@ -197,8 +197,18 @@ def _wire_users():
     return [W.UserSpec("bob", None, home="/"), W.UserSpec("carl", None, home="/pub")]
 
 
+# written-out histories of past failures: they run first, on every tier
+PAST_FAILURES = [
+    # F15: a pending RNFR survived a re-login: the next user's RNTO moved a file out of the previous user's base
+    [("cmd", "RNFR x.txt"), ("cmd", "USER carl"), ("cmd", "RNTO x2.txt")],
+    [("cmd", "CWD a"), ("cmd", "RNFR x.txt"), ("cmd", "USER carl"), ("cmd", "CWD /"), ("cmd", "RNTO taken.txt")],
+    [("cmd", "RNFR a"), ("cmd", "USER bob"), ("cmd", "RNTO a2")],
+    [("cmd", "CWD /"), ("late", "LIST a", ["RNFR x.txt", "MKD zz", "USER carl"]), ("cmd", "RNTO x2.txt"), ("cmd", "RMD q/r")],
+]
+
+
 def gen_wire_plans(ctx):
-    plans = []
+    plans = [list(p) for p in PAST_FAILURES]
     for t in TRANSFERS:
         plans.append([("late", t, [])])
         for i in INTERPOSED:
